@@ -2,9 +2,9 @@ CONSTANTS
   Conns = {1, 2, 3}
   IDMod = 4
   MaxChats = 1
-  MaxSteps = 6
+  MaxSteps = 5
   GenDepth = 99
-  Ops = {"connect","login","agreed","setinfo","userlist","close","chat","invitenew","invite","reject","join","leave","subject","pm","broadcast","getinfo","setuser","kick","banadd","wait","restart"}
+  Ops = {"churn","rawfail","connect","login","agreed","setinfo","userlist","close","chat","invitenew","invite","reject","join","leave","subject","pm","broadcast","getinfo","setuser","kick","banadd","wait","restart"}
   Thin = FALSE
 INIT Init
 NEXT Next
